@@ -54,7 +54,7 @@ structure PassInv (P : Job → Prop) (T : Task → Prop) : Prop where
 /-- the task was read from a pod controlled by the Job: in the pod cache or on the server when the pass
 starts, or the pod the pass created itself (`NewPod`: phase empty, no container status) -/
 def TaskSrc (s : Sys) (jo : JobObj) (t : Task) : Prop :=
-  ∃ p, podTask p = some t ∧ p.ownerUid = some jo.uid ∧
+  ∃ p, podTask s.clock p = some t ∧ p.ownerUid = some jo.uid ∧
     (p ∈ s.podCache ∨ p ∈ s.pods ∨ ∃ idx retry, p = newPod jo idx retry (nowT s))
 
 theorem tasksForRefs_src (s : Sys) (jo : JobObj) (refs : List TaskRef) :
@@ -104,13 +104,13 @@ theorem syncCreateTask_src {P : Job → Prop} {T : Task → Prop} (hP : PassInv 
   generalize apiCreatePod s jo idx retry = r at hspec hstat ⊢
   obtain ⟨s1, res⟩ := r
   have hnow : nowT s = nowT s0 := nowT_frame hst
-  have app : ∀ (p : PodObj) (t : Task), podTask p = some t → p.ownerUid = some jo.uid →
+  have app : ∀ (p : PodObj) (t : Task), podTask s.clock p = some t → p.ownerUid = some jo.uid →
       (p ∈ s0.podCache ∨ p ∈ s0.pods ∨ ∃ idx retry, p = newPod jo idx retry (nowT s0)) →
       ∀ x ∈ tasks ++ [t], TaskSrc s0 jo x := by
     intro p t hpt ho hsrc x hx
     rcases List.mem_append.mp hx with h | h
     · exact ht x h
-    · simp only [List.mem_singleton] at h; subst h; exact ⟨p, hpt, ho, hsrc⟩
+    · simp only [List.mem_singleton] at h; subst h; exact ⟨p, hst.clock ▸ hpt, ho, hsrc⟩
   cases res with
   | ok p =>
     (try simp only)
@@ -122,7 +122,7 @@ theorem syncCreateTask_src {P : Job → Prop} {T : Task → Prop} (hP : PassInv 
       · rcases h'.2 with h'' | h''
         · simp only [CreateRes.ok.injEq] at h''; exact h''
         · cases h''
-    cases hpt : podTask p with
+    cases hpt : podTask s.clock p with
     | none => simp [hpt] at h
     | some t =>
       simp only [hpt, Option.map_some, Option.some.injEq, Prod.mk.injEq] at h
@@ -144,7 +144,7 @@ theorem syncCreateTask_src {P : Job → Prop} {T : Task → Prop} (hP : PassInv 
       · rename_i ho
         refine ⟨hst.trans hstat, ?_⟩
         intro rj1 tasks1 h
-        cases hpt : podTask p with
+        cases hpt : podTask s.clock p with
         | none => simp [hpt] at h
         | some t =>
           simp only [hpt, Option.map_some, Option.some.injEq, Prod.mk.injEq] at h
